@@ -71,7 +71,9 @@ impl Previewer {
                 let voffset = pos.v_offset.calc_fixed_size(height, 0);
 
                 hscroll_offset_clone.store(max(1, max(hscroll, hoffset) - hoffset), Ordering::SeqCst);
-                vscroll_offset_clone.store(max(1, max(vscroll, voffset) - voffset), Ordering::SeqCst);
+                // keep the requested position inside the content, as the scroll actions do
+                let vmax = max(max(lines.len(), 1) - 1, 1);
+                vscroll_offset_clone.store(min(max(1, max(vscroll, voffset) - voffset), vmax), Ordering::SeqCst);
                 *content_clone.lock() = lines;
 
                 callback();
